@@ -315,7 +315,7 @@ func (c *Certificate) Verify(opts VerifyOptions) (chains [][]*Certificate, err e
 	if opts.Roots.contains(c) {
 		candidateChains = append(candidateChains, []*Certificate{c})
 	} else {
-		if candidateChains, err = c.buildChains(make(map[int][][]*Certificate), []*Certificate{c}, &opts); err != nil {
+		if candidateChains, err = c.buildChains(new(int), []*Certificate{c}, &opts); err != nil {
 			return nil, err
 		}
 	}
@@ -353,7 +353,14 @@ func appendToFreshChain(chain []*Certificate, cert *Certificate) []*Certificate 
 	return n
 }
 
-func (c *Certificate) buildChains(cache map[int][][]*Certificate, currentChain []*Certificate, opts *VerifyOptions) (chains [][]*Certificate, err error) {
+// maxChainExpansions bounds the number of intermediates that one Verify call
+// expands, transitively. The chains through an intermediate depend on the path
+// that leads to it (path length limits, loop avoidance), so they cannot be
+// cached per intermediate; this bound keeps cross-signed meshes from causing
+// unbounded work instead.
+const maxChainExpansions = 100
+
+func (c *Certificate) buildChains(expansions *int, currentChain []*Certificate, opts *VerifyOptions) (chains [][]*Certificate, err error) {
 	possibleRoots, failedRoot, rootErr := opts.Roots.findVerifiedParents(c)
 nextRoot:
 	for _, rootNum := range possibleRoots {
@@ -385,12 +392,13 @@ nextIntermediate:
 		if err != nil {
 			continue
 		}
-		var childChains [][]*Certificate
-		childChains, ok := cache[intermediateNum]
-		if !ok {
-			childChains, err = intermediate.buildChains(cache, appendToFreshChain(currentChain, intermediate), opts)
-			cache[intermediateNum] = childChains
+		*expansions++
+		if *expansions > maxChainExpansions {
+			err = errors.New("x509: chain building limit reached while verifying certificate")
+			break
 		}
+		var childChains [][]*Certificate
+		childChains, err = intermediate.buildChains(expansions, appendToFreshChain(currentChain, intermediate), opts)
 		chains = append(chains, childChains...)
 	}
 
